@@ -11465,6 +11465,9 @@ class Use_Stmt(StmtBase):  # pylint: disable=invalid-name
                 if not line_nat:
                     return None
                 nature = Module_Nature(line_nat)
+            elif line[:idx].strip():
+                # Unexpected text between 'USE' and '::'
+                return None
             line = line[idx + 2 :].lstrip()
             # No Module_Name after 'USE, Module_Nature ::'
             if not line:
